@@ -32,6 +32,8 @@ def run(ctx):
     _map(ctx, m)
     _api(ctx, m)
     _timezone_name(ctx, m)
+    zone_applied(ctx, m, 'C17.D2', 'zincparser', '_parse_datetime', 'zinc')
+    zone_applied(ctx, m, 'C17.D2', 'jsonparser', 'parse_embedded_scalar', 'json')
     # every zone name the writer can emit is a token the ZINC reader accepts as a date-time (D2; the date-time row of
     # C01.D2's writer-template vs reader-alternative inclusion)
     from . import _zinc
@@ -108,6 +110,25 @@ def _map(ctx, m):
         ctx.violation('C17.D1', '%s::%s' % (FZ, sorted(writers)), 'writers of _TZ_MAP/_TZ_RMAP',
                       'the maps can change after they were built', 'unexpected writer(s): %s' % sorted(writers - {'_gen_map', '<module>'}),
                       file=FZ, engine='E7')
+    # the accessors build the maps before handing them out
+    for acc, var in (('get_tz_map', '_TZ_MAP'), ('get_tz_rmap', '_TZ_RMAP')):
+        try:
+            af = m.func('zoneinfo', acc)
+        except AnalysisError as e:
+            ctx.error('C17.D1', str(e))
+            continue
+        b_ = body_wo_doc(af)
+        calls_gen = [i for i, st in enumerate(b_) if isinstance(st, ast.Expr) and norm(st.value) == '_gen_map()']
+        rets_ = [i for i, st in enumerate(b_) if isinstance(st, ast.Return)]
+        if calls_gen and rets_ and calls_gen[0] < rets_[0] and norm(b_[rets_[0]].value) == var:
+            ctx.ob('C17.D1', '%s() builds the maps (_gen_map) before returning %s' % (acc, var), True, '%s:%d' % (FZ, af.lineno))
+        elif rets_ and norm(b_[rets_[0]].value) == var and not calls_gen:
+            ctx.violation('C17.D1', '%s::%s' % (FZ, acc), norm(b_[rets_[0]]),
+                          'in a fresh process timezone("UTC") (or the first dump of a date-time) fails with TypeError: %s is still '
+                          'None because %s() does not call _gen_map()' % (var, acc),
+                          '%s returns %s without building it first' % (acc, var), file=FZ, line=af.lineno, engine='E7')
+        else:
+            ctx.error('C17.D1', '%s(): shape not recognised' % acc)
     # timezone(): unknown name -> ValueError
     try:
         tz = m.func('zoneinfo', 'timezone')
@@ -346,3 +367,108 @@ def _timezone_name(ctx, m, rule='C17.D3'):
             ctx.violation(rule, '%s::timezone_name' % FZ, 'handlers %s' % hk, 'a non-pytz tzinfo raises AttributeError out of '
                           'timezone_name', 'fast path does not catch KeyError and AttributeError', file=FZ,
                           line=tries[0].lineno, engine='E8')
+
+
+# ---------------------------------------------------------------- the readers apply the zone name that was written
+
+def _guards(fn, st):
+    """[(test text, polarity)] of the ifs that enclose statement st inside fn"""
+    out = []
+    child = st
+    p = getattr(st, '_parent', None)
+    while p is not None and p is not fn:
+        if isinstance(p, ast.If):
+            if child in p.body:
+                out.append((p.test, True))
+            elif child in p.orelse:
+                out.append((p.test, False))
+        child = p
+        p = getattr(p, '_parent', None)
+    return out
+
+
+def zone_applied(ctx, m, rule, modname, fname, style):
+    """The reader takes the zone label from the right token / capture group, looks it up with timezone() and converts the
+    stamp into it -- and does so exactly when a label is present.  The conversion sits in a `try` whose bare `except`
+    returns the unconverted stamp, so taking the wrong token, dropping the look-up or inverting the guard does not
+    fail: it silently ignores the zone."""
+    from .. import match
+    F_ = 'hszinc/%s.py' % modname
+    try:
+        fn = m.func(modname, fname, 'nested')      # if/else spelling: every guard is explicit on the path to a statement
+    except AnalysisError as e:
+        ctx.error(rule, str(e))
+        return
+    con = '%s::%s' % (F_, fname)
+    sc = match.Script(ctx, rule, [fn], F_, con, engine='E7')
+    lost = 'a stamp written with a zone name (2021-07-01T12:00:00+02:00 Paris) is read back without it: the value keeps a bare ' \
+           'UTC offset instead of the named zone'
+    if style == 'zinc':
+        sc.seed('toks', fn.args.args[0].arg)
+        sc.need(['_R_iso = _R_toks[0]'], 'the ISO stamp is the first token', 'the zone label is parsed as the stamp')
+        tzs = sc.need(['_R_tzname = _R_toks[1]'], 'the zone label is the second token', lost)
+        src_guard_ok = ('len({t}) > 1', 'len({t}) >= 2', 'len({t}) == 2')
+    else:
+        # (bad forms are only meaningful for the name that is later handed to timezone())
+        tzarg = [c.args[0].id for c in ast.walk(fn) if isinstance(c, ast.Call) and norm(c.func) == 'timezone' and c.args
+                 and isinstance(c.args[0], ast.Name)]
+        if tzarg:
+            sc.seed('tzname', tzarg[0])
+        tzs = sc.need(['_R_tzname = _R_groups[-1]'], 'the zone label is the last capture group', lost,
+                      bad=['_R_tzname = _R_groups[0]', '_R_tzname = _R_groups[1]', '_R_tzname = _R_groups[-2]'])
+        src_guard_ok = ()
+    look = sc.need(['_R_tz = timezone(_R_tzname)'], 'the label is looked up with timezone()', lost, optional=True)
+    if look is not None:
+        conv = sc.need(['return [_R_iso.astimezone(_R_tz)]', 'return _R_iso.astimezone(_R_tz)'],
+                       'the stamp is converted into the named zone', lost)
+    else:
+        conv = sc.need(['return [_R_iso.astimezone(timezone(_R_tzname))]', 'return _R_iso.astimezone(timezone(_R_tzname))'],
+                       'the stamp is converted into the zone looked up with timezone(label)', lost, optional=True)
+        if conv is None:
+            dangling = sc.need(['return [_R_iso.astimezone(_R_tz)]', 'return _R_iso.astimezone(_R_tz)'],
+                               'the stamp is converted into a zone object', lost)
+            if dangling is not None:
+                tzv = sc.bind.get('tz')
+                assigned = [x for x in ast.walk(fn) if isinstance(x, ast.Name) and x.id == tzv and isinstance(x.ctx, ast.Store)]
+                if not assigned:
+                    ctx.violation(rule, con, norm(dangling), lost + ' (`%s` is never assigned: the NameError is swallowed by the '
+                                  'bare except, which returns the unconverted stamp)' % tzv,
+                                  'the zone object `%s` used for the conversion is never looked up' % tzv, file=F_,
+                                  line=dangling.lineno, engine='E7')
+                else:
+                    ctx.error(rule, '%s: zone object `%s` is not the result of timezone(label); cannot decide' % (fname, tzv))
+            conv = None
+    tzname = sc.bind.get('tzname')
+    if tzs is not None and src_guard_ok:
+        gs = _guards(fn, tzs)
+        toks = sc.bind.get('toks')
+        okg = [t for t, pol in gs if pol and norm(t) in [f.format(t=toks) for f in src_guard_ok]]
+        if okg:
+            ctx.ob(rule, '%s: the label is taken when a second token exists' % fname, True, '%s:%d' % (F_, tzs.lineno))
+        elif gs:
+            t, pol = gs[0]
+            ctx.violation(rule, con, norm(t), lost,
+                          'the zone label is only taken under `%s%s`, not whenever a second token exists' % (
+                              '' if pol else 'not ', norm(t)), file=F_, line=tzs.lineno, engine='E7')
+        else:
+            ctx.error(rule, '%s: `%s` is not guarded by a token count; cannot decide' % (fname, norm(tzs)))
+    if conv is not None and tzname:
+        gs = _guards(fn, conv)
+        pos = ('bool(%s)' % tzname, tzname, '%s is not None' % tzname)
+        neg = ('not bool(%s)' % tzname, 'not %s' % tzname, '%s is None' % tzname)
+        verdict = None
+        for t, pol in gs:
+            tt = norm(t)
+            if (tt in pos and pol) or (tt in neg and not pol):
+                verdict = verdict or 'ok'
+            elif (tt in pos and not pol) or (tt in neg and pol):
+                verdict = 'inverted'
+        if verdict == 'ok':
+            ctx.ob(rule, '%s: the conversion is done exactly when a label is present' % fname, True, '%s:%d' % (F_, conv.lineno))
+        elif verdict == 'inverted':
+            ctx.violation(rule, con, norm(conv), lost, 'the conversion into the named zone is reached only when NO label is '
+                          'present (guard inverted); with a label the stamp is returned unconverted', file=F_,
+                          line=conv.lineno, engine='E7')
+        else:
+            ctx.error(rule, '%s: guard of the zone conversion not recognised (%s); cannot decide'
+                      % (fname, [norm(t) for t, _ in gs]))
